@@ -97,6 +97,10 @@ func regressions() []hist {
 		{Initial: "partial", Slow: "write", Stopped: "slow", Dial1: true, Steps: []string{"start", "pause2", "addpeer", "pause2", "stop", "pause2", "stats", "wait"}},
 		{Initial: "empty", Slow: "write", Stopped: "silent", Dial1: true, Steps: []string{"start", "addpeer", "pause2", "stop", "pause1", "stats", "wait", "start", "addpeer", "pause2", "verify", "wait"}},
 		{Initial: "partial", Slow: "none", Stopped: "ok", Dial1: true, Steps: []string{"start", "addpeer", "wait", "addpeer", "stop", "wait"}},
+		// files deleted while stopped, the start that would notice is stopped during allocation, then started again (thorough seed 0, histories 2337-2339)
+		{Initial: "partial", Slow: "none", Stopped: "ok", Steps: []string{"verify", "mutate-delete-all", "start", "stop"}},
+		{Initial: "complete", Slow: "open", Stopped: "ok", Dial1: true, Steps: []string{"verify", "mutate-delete-all", "start", "stop"}},
+		{Initial: "complete", Slow: "open", Stopped: "ok", Steps: []string{"start", "wait", "stop", "wait", "mutate-delete-one", "start", "stop", "wait", "start", "stop"}},
 		// a peer address that arrives while the torrent is Stopping (slow 'stopped' announce) must not leave a connected peer behind
 		{Initial: "partial", Slow: "none", Stopped: "slow", Steps: []string{"start", "wait", "stop", "pause1", "addpeer", "wait"}},
 		{Initial: "empty", Slow: "none", Stopped: "slow", Dial1: true, Steps: []string{"start", "pause2", "stop", "pause1", "addpeer", "pause2", "stats", "wait"}},
